@@ -7,9 +7,11 @@ import (
 	"math/rand"
 	"os"
 	"sync"
+	"sync/atomic"
 	"time"
 
 	"github.com/relab/gorums"
+	"google.golang.org/grpc/backoff"
 	"google.golang.org/grpc/codes"
 
 	"verif/harness/drive"
@@ -35,6 +37,7 @@ func cmdM3(args []string) error {
 	ncalls := fs.Int("calls", 40, "calls per goroutine")
 	alpha := fs.String("alphabet", "routing", "event alphabet")
 	cancel := fs.String("cancel", "safe", "cancellation: none, safe (only after the requests were sent), any")
+	faults := fs.Bool("faults", false, "stop and restart servers at random while the workload runs")
 	fs.Parse(args)
 	alphabet := progAlphabets[*alpha]
 	all := *alpha == "all"
@@ -51,15 +54,23 @@ func cmdM3(args []string) error {
 		rng := rand.New(rand.NewSource(*seed*1000 + int64(run)))
 		tr := vtrace.New()
 		sendbuf := []uint{0, 4}[rng.Intn(2)]
-		env, err := drive.NewEnv(tr, drive.EnvOpts{Nodes: 3, MgrOpts: []gorums.ManagerOption{gorums.WithSendBufferSize(sendbuf)}})
+		mopts := []gorums.ManagerOption{gorums.WithSendBufferSize(sendbuf)}
+		if *faults {
+			mopts = append(mopts, gorums.WithBackoff(backoff.Config{BaseDelay: 10 * time.Millisecond, Multiplier: 1.3, MaxDelay: 50 * time.Millisecond}))
+		}
+		env, err := drive.NewEnv(tr, drive.EnvOpts{Nodes: 3, MgrOpts: mopts, DialTimeout: 500 * time.Millisecond})
 		if err != nil {
 			return err
 		}
 		behSeed := rng.Int63()
+		var probing int32
 		for _, s := range env.Servers {
 			id := s.ID
 			s.Auto = func(method string, req *puppet.Req) []puppetsrv.Cmd {
 				h := rand.New(rand.NewSource(behSeed ^ int64(req.GetCall())*31 ^ int64(id)*1000003))
+				if atomic.LoadInt32(&probing) == 1 {
+					return []puppetsrv.Cmd{{Kind: "reply", Val: 1}}
+				}
 				kind := "reply"
 				switch method {
 				case "CorrStream", "CorrStreamCustom":
@@ -93,34 +104,99 @@ func cmdM3(args []string) error {
 		var wg sync.WaitGroup
 		var mu sync.Mutex
 		var toks []uint64
-		for g := 0; g < *gor; g++ {
-			wg.Add(1)
-			grng := rand.New(rand.NewSource(rng.Int63()))
-			go func() {
-				defer wg.Done()
-				for i := 0; i < *ncalls; i++ {
-					m := m3Methods[grng.Intn(len(m3Methods))]
-					size := 1 + grng.Intn(3)
-					k := 1 + grng.Intn(size)
-					how := "none"
-					if *cancel != "none" && grng.Intn(4) == 0 {
-						how = *cancel
+		finished := make(chan struct{})
+		go func() {
+			defer close(finished)
+			for g := 0; g < *gor; g++ {
+				wg.Add(1)
+				grng := rand.New(rand.NewSource(rng.Int63()))
+				go func() {
+					defer wg.Done()
+					for i := 0; i < *ncalls; i++ {
+						m := m3Methods[grng.Intn(len(m3Methods))]
+						size := 1 + grng.Intn(3)
+						k := 1 + grng.Intn(size)
+						how := "none"
+						if *cancel != "none" && grng.Intn(4) == 0 {
+							how = *cancel
+						}
+						tok := r.FreeCall(m, size, k, grng.Intn(2) == 0, how, time.Duration(grng.Intn(2000))*time.Microsecond)
+						if tok == 0 {
+							return
+						}
+						mu.Lock()
+						toks = append(toks, tok)
+						mu.Unlock()
 					}
-					tok := r.FreeCall(m, size, k, grng.Intn(2) == 0, how, time.Duration(grng.Intn(2000))*time.Microsecond)
-					if tok == 0 {
-						return
+				}()
+			}
+			stopFaults := make(chan struct{})
+			var fwg sync.WaitGroup
+			if *faults {
+				// the environment: a server crashes and comes back every now and then
+				fwg.Add(1)
+				frng := rand.New(rand.NewSource(rng.Int63()))
+				go func() {
+					defer fwg.Done()
+					for {
+						select {
+						case <-stopFaults:
+							return
+						case <-time.After(time.Duration(5+frng.Intn(30)) * time.Millisecond):
+						}
+						n := 1 + frng.Intn(3)
+						env.Server(n).Stop()
+						time.Sleep(time.Duration(frng.Intn(15)) * time.Millisecond)
+						env.Server(n).Start()
+						for i := 0; i < 50 && !gorums.VerifRedialNow(env.Node(n).RawNode); i++ {
+							time.Sleep(2 * time.Millisecond)
+						}
 					}
-					mu.Lock()
-					toks = append(toks, tok)
-					mu.Unlock()
+				}()
+			}
+			wg.Wait()
+			close(stopFaults)
+			fwg.Wait()
+			if *faults {
+				// every server is up again: wait until the transports are ready
+				for n := 1; n <= 3; n++ {
+					env.Server(n).Start()
+					for i := 0; i < 500 && !gorums.VerifRedialNow(env.Node(n).RawNode); i++ {
+						time.Sleep(5 * time.Millisecond)
+					}
 				}
-			}()
+			}
+			if *faults {
+				// C10: with every server up again, a quorum call that needs all
+				// three nodes must succeed (handlers answer at once)
+				atomic.StoreInt32(&probing, 1)
+				from := tr.Len()
+				tok := r.FreeCall("QC", 3, 3, false, "none", 0)
+				tag := "none"
+				for _, e := range tr.Events(from) {
+					if e.Ev == "StubRet" && e.Tok == tok {
+						tag, _ = e.F["tag"].(string)
+					}
+				}
+				if tok != 0 {
+					toks = append(toks, tok)
+					tr.Emit("Probe", 0, tok, "ok", tag == "ok", "tag", tag)
+				}
+			}
+			r.Settle(toks)
+		}()
+		hung := false
+		select {
+		case <-finished:
+		case <-time.After(90 * time.Second):
+			// the library is wedged in a way that blocks the harness itself (a
+			// server that cannot stop, ...): record it and give up
+			hung = true
+			tr.Emit("Quiescent", 0, 0, "why", "the run did not finish within 90 s")
 		}
-		wg.Wait()
-		clean := r.Settle(toks)
 		tr.Stop()
 		w.WriteRaw(map[string]interface{}{"ev": "Prog", "t": run, "tok": 0, "node": 0, "msg": 0, "sendbuf": sendbuf,
-			"prog": map[string]interface{}{"m3": true, "seed": *seed, "run": run, "goroutines": *gor, "calls": *ncalls, "cancel": *cancel}})
+			"prog": map[string]interface{}{"m3": true, "seed": *seed, "run": run, "goroutines": *gor, "calls": *ncalls, "cancel": *cancel, "faults": *faults}})
 		for _, e := range tr.Events(0) {
 			if all || alphabet[e.Ev] {
 				if e.Ev == "Route" {
@@ -135,9 +211,20 @@ func cmdM3(args []string) error {
 				}
 			}
 		}
-		_ = clean
-		env.Close()
+		mu.Lock()
 		totalCalls += len(toks)
+		mu.Unlock()
+		if hung {
+			break
+		}
+		closed := make(chan struct{})
+		go func() { env.Close(); close(closed) }()
+		select {
+		case <-closed:
+		case <-time.After(30 * time.Second):
+			fmt.Println("m3: Close did not return within 30 s; stopping")
+			run = *runs
+		}
 	}
 	totalEvents = w.Lines()
 	if err := w.Close(); err != nil {
